@@ -826,7 +826,19 @@ package kcp
 //@   loop 2 invariant s.kcp.wf() && (s.fecDecoder != nil ==> s.fecDecoder.wf()) && s.kcp.mtu + s.headerSize + s.ov() <= 1500 && held(s.mu) && n >= 0 && waitsnd < s.kcp.snd_wnd
 //@   loop 3 invariant s.kcp.wf() && (s.fecDecoder != nil ==> s.fecDecoder.wf()) && s.kcp.mtu + s.headerSize + s.ov() <= 1500 && held(s.mu) && n >= 0 && waitsnd < s.kcp.snd_wnd
 //
+// Read's bookkeeping of a message that did not fit the caller's buffer (C01), as two-state clauses
+// over its critical section (old = state when the session mutex was taken): the left-over is served
+// first, consumed exactly, and the core is not read while any of it remains; a new left-over is
+// exactly the unread tail of the staging buffer.
 //@ func UDPSession.Read
+//@   section UDPSession.mu ensures @C01 [leftover-served-first-and-consumed-exactly] old(len(s.bufptr)) > 0 ==> n == min(len(b), old(len(s.bufptr)))
+//@        && ref(s.bufptr) == old(ref(s.bufptr)) && off(s.bufptr) == old(off(s.bufptr)) + n && len(s.bufptr) == old(len(s.bufptr)) - n
+//@        && (forall j int :: 0 <= j && j < n ==> b[j] == old(s.bufptr[j]))
+//@   section UDPSession.mu ensures @C01 [core-not-read-while-leftover-remains] old(len(s.bufptr)) > 0 ==> s.kcp.rcv_nxt == old(s.kcp.rcv_nxt) && s.kcp.rcv_queue.rlen() == old(s.kcp.rcv_queue.rlen())
+//@   section UDPSession.mu ensures @C01 [new-leftover-is-the-unread-tail] old(len(s.bufptr)) == 0 && len(s.bufptr) > 0 ==> ref(s.bufptr) == ref(s.recvbuf)
+//@        && off(s.bufptr) + len(s.bufptr) == off(s.recvbuf) + len(s.recvbuf) && n + len(s.bufptr) == len(s.recvbuf) && n == len(b)
+//@   section UDPSession.mu ensures @C01 [head-of-the-staged-message-is-what-the-caller-gets] old(len(s.bufptr)) == 0 && len(s.bufptr) > 0 && ref(b) != ref(s.recvbuf)
+//@        ==> (forall j int :: 0 <= j && j < n ==> b[j] == s.recvbuf[j])
 //@   requires s.imm() && !held(s.mu)
 //@   modifies everything
 //@   loop 0 invariant s.imm() && !held(s.mu)
